@@ -1,5 +1,6 @@
 import Hgxv.Model.Wire
 import Hgxv.Model.C17
+import Hgxv.Model.C17Ext
 /-! Line protocol for C17 (stateless: every line carries what it needs).
 
 The first token selects the number type the generic model is run at:
@@ -7,11 +8,17 @@ The first token selects the number type the generic model is run at:
 `<cfg>` = `N K D edges A minv maxv eps rtol normU` (10 tokens; `maxv` = `none` or `t:v`; matrices `a,b;c,d`).
 
   `X sweep <cfg> u w psi bar rho lams perm` -> `u w psi bar rho lamAll penIncr penDef` after one `_update_em`
+  `X sweepfix <cfg> fixW fixU u w psi bar rho lams perm` -> the same after `_update_em` with the flags `fix_w`, `fix_communities`
   `X node  <cfg> u w psi bar rho lams i`    -> the same 8 fields after one pass of the loop body of `_update_u`
   `X init  <cfg> r0 uk u0 w0`                 -> the same 8 fields after the initialisation of a realisation
   `X ll    <cfg> u w psi`                   -> `lamAll penIncr penDef`
   `X rho   <cfg> u w`                       -> `rho`
   `X esymm d xs`                            -> `e_d(xs)`
+  `X rawinit <cfg> r0 hysc winit noise uk du dw` -> the 8 fields after the initialisation computed from the RAW draws, then
+                                               `u0 w0` (`hysc` = `none` or the matrix the start of `u` is placed around: the 0/1
+                                               matrix of the spectral baseline / the input of `initialize_u0`; `winit` = `none`
+                                               or the input of `initialize_w0`)
+  `F lap <cfg> weighted`                    -> the Laplacian of `HySC._extract_laplacian` (binary64 only: it needs `sqrt`)
   `R conv tol thr every maxIter inf Ls`     -> `loglik it conv rows` (rows oldest first `it:loglik:conv;...`)
   `R best inf Ls`                           -> `maxL idx` (`idx` = index of the realisation kept, `-1` none)
   `R session mode inf calls`                -> per call of `fit` on ONE object `maxL:call.idx` (`;`-separated): what the call
@@ -27,10 +34,12 @@ instance : One Float := ⟨1.0⟩
 structure Codec (α : Type) where
   num? : String → Option α
   shw : α → String
+  /-- square root, where the number type has one -/
+  sqrt? : Option (α → α)
 
-def ratCodec : Codec Rat := ⟨rat?, showRat⟩
+def ratCodec : Codec Rat := ⟨rat?, showRat, none⟩
 def floatCodec : Codec Float :=
-  ⟨fun s => s.toNat?.map (fun n => Float.ofBits n.toUInt64), fun x => toString x.toBits.toNat⟩
+  ⟨fun s => s.toNat?.map (fun n => Float.ofBits n.toUInt64), fun x => toString x.toBits.toNat, some Float.sqrt⟩
 
 section
 variable {α : Type} [Add α] [Mul α] [Sub α] [Div α] [Zero α] [One α] [LT α] [DecidableLT α] (cd : Codec α)
@@ -67,6 +76,14 @@ def stepG : List String → String
         cd.showState c (emSweep c { u := u, w := w, psi := psi, bar := bar, rho := rho, lams := lams } perm)
       | _, _, _, _, _, _, _ => "bad-args"
     | _, _ => "bad-op"
+  | "sweepfix" :: rest =>
+    match cd.cfg? (rest.take 10), rest.drop 10 with
+    | some c, [fw, fu, u, w, psi, bar, rho, lams, perm] =>
+      match cd.mat? u, cd.mat? w, cd.mat? psi, cd.mat? bar, cd.mat? rho, cd.list? lams, nats? perm with
+      | some u, some w, some psi, some bar, some rho, some lams, some perm =>
+        cd.showState c (emSweepFix c (fw = "1") (fu = "1") { u := u, w := w, psi := psi, bar := bar, rho := rho, lams := lams } perm)
+      | _, _, _, _, _, _, _ => "bad-args"
+    | _, _ => "bad-op"
   | "node" :: rest =>
     match cd.cfg? (rest.take 10), rest.drop 10 with
     | some c, [u, w, psi, bar, rho, lams, i] =>
@@ -82,6 +99,20 @@ def stepG : List String → String
       | some uk, some u0, some w0 => cd.showState c (initState c (r0 = "1") uk u0 w0 [])
       | _, _, _ => "bad-args"
     | _, _ => "bad-op"
+  | "rawinit" :: rest =>
+    match cd.cfg? (rest.take 10), rest.drop 10 with
+    | some c, [r0, hysc, winit, noise, uk, du, dw] =>
+      match (if hysc = "none" then some none else (cd.mat? hysc).map some),
+            (if winit = "none" then some none else (cd.mat? winit).map some), cd.num? noise, cd.list? uk, cd.mat? du, cd.mat? dw with
+      | some hy, some wi, some noise, some uk, some du, some dw =>
+        " ".intercalate [cd.showState c (initFromDraws c (r0 = "1") hy wi noise uk du dw []),
+          cd.showM (u0Of c hy noise du), cd.showM (w0Of c wi noise dw)]
+      | _, _, _, _, _, _ => "bad-args"
+    | _, _ => "bad-op"
+  | "lap" :: rest =>
+    match cd.cfg? (rest.take 10), rest.drop 10, cd.sqrt? with
+    | some c, [weighted], some sq => cd.showM (lap c sq (weighted = "1"))
+    | _, _, _ => "bad-op"
   | "ll" :: rest =>
     match cd.cfg? (rest.take 10), rest.drop 10 with
     | some c, [u, w, psi] =>
